@@ -115,3 +115,100 @@ Print Assumptions C16_top_n_slice.
 Print Assumptions C16_cut_harmless.
 Print Assumptions C16_cut_harmless_perm.
 Print Assumptions C16_cut_harmless_create.
+
+(* ==================================================================================================================================
+   APPENDED: THE EXACT CROSS-CORRELATION OF THE SEEDING STAGE (model/Correlate.v; proofs/CorrelateProofs1-3.v)
+   xcorr ref q           entry k = sum_i ref[k+i] * q[i], k = 0 .. len(ref) - len(q): what scipy.signal.correlate(ref, q, mode='valid')
+                         returns for len(ref) >= len(q) >= 1 (correlate_valid: also the swapped branch for len(q) > len(ref) and the
+                         IndexError on an empty input).  FFT rounding is not modelled (the true values are integers; the harness
+                         compares np.rint of scipy's output).
+   get_sequence          OpticalMap.getSequence = blur(vectorise(...)), reversed for the reverse strand
+   norm2 / normalised    twice the normalising factor of getInitialAlignment / the normalised correlation as exact rationals
+   is01 v                every entry is 0 or 1;  vsum v = sum of the entries (the number of 1-bits);  window ref k m = ref[k : k+m]
+   covers ref q k        every 1-bit of q, placed at lag k, meets a 1-bit of ref;  sumn f n = f 0 + ... + f (n-1) *)
+From Coq Require Import QArith Lia.
+Require Import Correlate CorrelateProofs1 CorrelateProofs2 CorrelateProofs3.
+
+Theorem C16_xcorr_entry ref q k : (k <= length ref - length q)%nat ->
+  length (xcorr ref q) = (length ref - length q + 1)%nat /\
+  nth k (xcorr ref q) 0 = sumn (fun i => nth (k + i) ref 0 * nth i q 0) (length q).
+Proof. exact (fun Hk => conj (xcorr_length ref q) (xcorr_entry ref q k Hk)). Qed.
+(* scipy's function on the inputs the lag theorems speak about *)
+Theorem C16_correlate_valid ref q : q <> [] -> (length q <= length ref)%nat -> correlate_valid ref q = Ok (xcorr ref q).
+Proof. exact (correlate_valid_xcorr ref q). Qed.
+(* 0 <= entry <= 1-bits of the query, and <= 1-bits of the reference window *)
+Theorem C16_xcorr_bounds ref q k : is01 ref -> is01 q -> (k <= length ref - length q)%nat ->
+  0 <= nth k (xcorr ref q) 0 /\ nth k (xcorr ref q) 0 <= vsum q /\ nth k (xcorr ref q) 0 <= vsum (window ref k (length q)).
+Proof. exact (xcorr_bounds ref q k). Qed.
+(* the upper bound vsum q is reached exactly at the covered lags; a covered lag is a global maximum *)
+Theorem C16_xcorr_max_iff_covered ref q k : is01 ref -> is01 q -> (k <= length ref - length q)%nat ->
+  (nth k (xcorr ref q) 0 = vsum q <-> covers ref q k).
+Proof. exact (xcorr_max_iff ref q k). Qed.
+Theorem C16_xcorr_covered_is_max ref q k0 : is01 ref -> is01 q -> (k0 <= length ref - length q)%nat -> covers ref q k0 ->
+  nth k0 (xcorr ref q) 0 = vsum q /\
+  forall k, (k <= length ref - length q)%nat -> nth k (xcorr ref q) 0 <= nth k0 (xcorr ref q) 0.
+Proof. exact (xcorr_covered_is_max ref q k0). Qed.
+(* the normalising factor: twice it = 1-bits of the reference window + 1-bits of the query; 2 * correlation never exceeds it, with
+   equality exactly when the reference window IS the query vector *)
+Theorem C16_norm_factor ref q k : is01 ref -> is01 q -> (length q <= length ref)%nat -> (k <= length ref - length q)%nat ->
+  nth k (norm2 ref q) 0 = vsum (window ref k (length q)) + vsum q /\
+  2 * nth k (xcorr ref q) 0 <= nth k (norm2 ref q) 0 /\
+  (2 * nth k (xcorr ref q) 0 = nth k (norm2 ref q) 0 <-> window ref k (length q) = q).
+Proof. exact (fun Hr Hq Hl Hk => conj (norm2_nth ref q k Hk) (norm2_bound ref q k Hr Hq Hl Hk)). Qed.
+(* the normalised correlation (exact rational; entries whose factor is 0 excluded): = corr / (norm2 / 2), at most 1, equal to 1 on an
+   identical window and below 1 elsewhere *)
+Theorem C16_normalised ref q k : is01 ref -> is01 q -> (length q <= length ref)%nat -> (k <= length ref - length q)%nat ->
+  0 < nth k (norm2 ref q) 0 ->
+  nth k (normalised ref q) 0%Q = (inject_Z (nth k (xcorr ref q) 0%Z) / (inject_Z (nth k (norm2 ref q) 0%Z) / inject_Z 2))%Q /\
+  (nth k (normalised ref q) 0 <= 1)%Q /\
+  (window ref k (length q) = q -> 0 < vsum q -> (nth k (normalised ref q) 0 == 1)%Q) /\
+  (window ref k (length q) <> q -> (nth k (normalised ref q) 0 < 1)%Q).
+Proof. exact (fun Hr Hq Hl Hk Hp => conj (normalised_nth ref q k Hk) (conj (normalised_le_1 ref q k Hr Hq Hl Hk Hp)
+         (conj (fun Hw Hs => normalised_eq_1 ref q k Hr Hq Hl Hk Hs Hw) (normalised_lt_1 ref q k Hr Hq Hl Hk Hp)))). Qed.
+(* getSequence: no exception for resolution >= 1, radius >= 0 and at least one label; the result is a 0/1 vector *)
+Theorem C16_sequence ps res r b start stop : 1 <= res -> 0 <= r -> ps <> [] ->
+  get_sequence_py ps res r b start stop = Ok (get_sequence ps res (Z.to_nat r) b start stop) /\
+  is01 (get_sequence ps res (Z.to_nat r) b start stop).
+Proof. exact (fun H1 H2 H3 => conj (get_sequence_py_ok ps res r b start stop H1 H2 H3) (get_sequence_is01 ps res (Z.to_nat r) b start stop)). Qed.
+(* blur commutes with reversal; the vector never extends beyond a label's bin; vectors whose set bits sit within s bins of each
+   other stay covered after blurring when the radii differ by at least s *)
+Theorem C16_blur_rev v r : blur (rev v) r = rev (blur v r).
+Proof. exact (blur_rev v r). Qed.
+Theorem C16_vector_length_bound ps res start stop : 1 <= res ->
+  forall i, (i < length (vectorise ps res start stop))%nat -> exists p, In p ps /\ start + Z.of_nat i * res <= p.
+Proof. exact (vectorise_len_bound ps res start stop). Qed.
+Theorem C16_blur_cover v w k0 r1 r2 s : (r1 + s <= r2)%nat -> (k0 + length v <= length w)%nat ->
+  (forall j, (j < length v)%nat -> nth j v 0 <> 0 -> exists j', (j' < length w)%nat /\ nth j' w 0 <> 0 /\ (k0 + j <= j' <= k0 + j + s)%nat) ->
+  covers (blur w r2) (blur v r1) k0.
+Proof. exact (blur_cover v w k0 r1 r2 s). Qed.
+
+(* ---------- non-vacuity ---------- *)
+Example C16_ex_xcorr : xcorr [1; 0; 1; 1; 0] [1; 1] = [1; 1; 2; 1] /\ correlate_valid [1; 0; 1; 1; 0] [1; 1] = Ok [1; 1; 2; 1] /\
+  correlate_valid [1; 1] [1; 0; 1; 1; 0] = Ok [1; 2; 1; 1] /\ correlate_valid [] [1] = Err /\
+  norm2 [1; 0; 1; 1; 0] [1; 1] = [3; 3; 4; 3] /\ covers [1; 0; 1; 1; 0] [1; 1] 2 /\ ~ covers [1; 0; 1; 1; 0] [1; 1] 1.
+Proof. repeat split; try (vm_compute; reflexivity).
+  - intros i Hi H1. destruct i as [|[|i]]; [reflexivity | reflexivity | cbn in Hi; lia].
+  - intros H. specialize (H O ltac:(cbn; lia) eq_refl). cbn in H. lia. Qed.
+Example C16_ex_sequence : get_sequence [0; 25; 61] 10 1 false 0 None = [1; 1; 1; 1; 0; 1; 1] /\ get_sequence [0; 25; 61] 10 1 true 0 None = [1; 1; 0; 1; 1; 1; 1] /\
+  get_sequence_py [0; 25; 61] 10 1 true 0 None = Ok [1; 1; 0; 1; 1; 1; 1] /\ get_sequence_py [] 10 1 true 0 None = Err /\
+  get_sequence [0; 25; 61; 90] 10 1 false 20 (Some 70) = [1; 1; 0; 1; 1; 1].
+Proof. vm_compute. repeat split; reflexivity. Qed.
+(* the normalisation is not monotone: the query is covered at lag 0 only (correlation 3 = all its 1-bits, the strict global maximum) but
+   the dense window there gives 2*3/(5+3) = 3/4, while lag 5, where only 2 of the 3 bits meet, gives 2*2/(2+3) = 4/5 *)
+Example C16_normalised_not_monotone :
+  let ref := [1;1;1;1;1;0;0;1;0;1;0;0] in let q := [1;0;1;0;1] in
+  covers ref q 0 /\ xcorr ref q = [3; 2; 2; 2; 1; 2; 0; 2] /\ norm2 ref q = [8; 7; 6; 6; 5; 5; 5; 5] /\
+  (nth 0 (normalised ref q) 0 == 3 # 4)%Q /\ (nth 5 (normalised ref q) 0 == 4 # 5)%Q /\ (nth 0 (normalised ref q) 0 < nth 5 (normalised ref q) 0)%Q.
+Proof. cbv zeta. split; [intros i Hi H1; destruct i as [|[|[|[|[|i]]]]]; cbn in Hi, H1; first [reflexivity | lia]|]. vm_compute. repeat split; try reflexivity; intros; discriminate. Qed.
+
+Print Assumptions C16_xcorr_entry.
+Print Assumptions C16_correlate_valid.
+Print Assumptions C16_xcorr_bounds.
+Print Assumptions C16_xcorr_max_iff_covered.
+Print Assumptions C16_xcorr_covered_is_max.
+Print Assumptions C16_norm_factor.
+Print Assumptions C16_normalised.
+Print Assumptions C16_sequence.
+Print Assumptions C16_blur_rev.
+Print Assumptions C16_vector_length_bound.
+Print Assumptions C16_blur_cover.
